@@ -49,6 +49,7 @@ namespace {
 const uint64_t ENGINE_ID = 14;
 Corpus g_corpus;
 std::string g_fsdir;
+bool g_hash_all = false;
 sim::Progress g_prog;
 
 // ------------------------------------------------------- simulated streams
@@ -447,12 +448,15 @@ int main(int argc, char** argv)
             st.add("runs"); st.add("mode_" + mode);
             if (!rr.intact || rr.faults[0]) classes[std::string(rr.cls) + "|" + rr.faults]++;
             if (rr.sig[0]) { std::printf("CAND run=%" PRIu64 " sig=%s\n", i, rr.sig); st.add("candidates"); }
-            if ((i & 63) == 0) std::printf("HASH run=%" PRIu64 " hash=%016" PRIx64 "\n", i, rr.hash);
+            if ((i & 63) == 0 || g_hash_all) std::printf("HASH run=%" PRIu64 " hash=%016" PRIx64 "\n", i, rr.hash);
          }
          std::string cj = "{"; bool fst = true;
          for (auto& kv : classes) { if (!fst) cj += ","; fst = false; cj += "\"" + sim::jesc(kv.first) + "\":" + std::to_string(kv.second); }
          cj += "}";
          std::printf("STATS {\"counters\":%s,\"classes\":%s}\nDONE\n", st.json().c_str(), cj.c_str());
+      } else if (t[0] == "HASHALL") {
+         g_hash_all = t.size() > 1 && t[1] != "0";
+         std::printf("DONE\n");
       } else if (t[0] == "COUNT") {
          std::printf("COUNT PREFIX %zu\nCOUNT PREFIXQ %zu\nCOUNT TOKEN %zu\nCOUNT TOKENQ %zu\nCOUNT CORPUS %zu\nBUDGET %" PRIu64 " %" PRIu64 "\nDONE\n",
                      g_prefix.total, g_prefixq.total, g_token.total, g_tokenq.total, 2 * g_corpus.files.size(), g_budget, max_steps);
